@@ -367,6 +367,8 @@ def gen_c13_suppress(rng: random.Random, sid: str, thorough: bool = False) -> di
         k = rng.randint(0, 3)
         gap = rng.choice([1, 2, 500, 998, 999, 1000, 1001, 1500])
         tq = due[k] - gap
+        while tq in due:
+            tq -= 1                  # not in the millisecond of another start-up query (two timers of one instant)
         mode = rng.random()
         cached = known + [1]
         if mode < 0.3:
